@@ -60,6 +60,11 @@ def mutations(ctx, config, rng, C, Co, H, Ho, pr, extra, tag, full_flips=False):
         tail = bytes(rng.getrandbits(8) for _ in range(40)) if rng.random() < 0.5 else bytes(40)
         for L in range(0, len(proof) + 41):
             if L != len(proof) and (L > len(proof) - 70 or L % 7 == 0): vcase(ctx, config, C, Co, H, Ho, (proof + tail)[:L], extra, tag + ":len_sweep", nontrivial=abs(L - len(proof)) <= 33)
+    # the verifier derives the last digit commitment as C - (sum of the transmitted ones + min*H): a commitment chosen so that this is
+    # the point at infinity must be rejected
+    if pr.get("acc") is not None and rng.random() < 0.5:
+        Ca = pr["acc"]; Cao = commit_obj(ctx, config, Ca)
+        if Cao is not None: vcase(ctx, config, Ca, Cao, H, Ho, proof, extra, tag + ":derived_commitment_infinity")
     # e0
     o = soff - 32; t = bytearray(proof); t[o + rng.randrange(32)] ^= 1 << rng.randrange(8); vcase(ctx, config, C, Co, H, Ho, bytes(t), extra, tag + ":e0_altered")
     # digit commitments
